@@ -22,3 +22,39 @@ def nist_compounds(repo=None):
             return {}
         out[nm] = dict(index=k, density=float(d), Elements=ints[e], massFractions=dbls[w])
     return out if len(out) >= 20 else {}
+
+
+def crystals(repo=None):
+    """name -> dict(cell=[a, b, c, alpha, beta, gamma], atoms=[(Z, occupancy, x, y, z), ...]) from data/Crystals.dat (SPEC-like text)"""
+    p = os.path.join(repo or build.REPO, 'data', 'Crystals.dat')
+    try:
+        lines = open(p, encoding='latin1').read().split('\n')
+    except OSError:
+        return {}
+    out, cur = {}, None
+    for l in lines:
+        if l.startswith('#S'):
+            t = l.split()
+            if len(t) < 3:
+                return {}
+            cur = out[t[2]] = dict(cell=None, atoms=[])
+        elif l.startswith('#EOF'):
+            cur = None
+        elif cur is None:
+            continue
+        elif l.startswith('#UCELL'):
+            try:
+                cur['cell'] = [float(x) for x in l.split()[1:7]]
+            except ValueError:
+                return {}
+        elif l.startswith('#') or not l.strip():
+            continue
+        else:
+            t = l.split()
+            try:
+                cur['atoms'].append((int(t[0]),) + tuple(float(x) for x in t[1:5]))
+            except (ValueError, IndexError):
+                return {}
+    if any(c['cell'] is None or len(c['cell']) != 6 or any(len(a) != 5 for a in c['atoms']) for c in out.values()):
+        return {}
+    return out if len(out) >= 5 else {}
